@@ -39,6 +39,11 @@ fn matrix_of(c: &Case) -> Vec<f64> {
                 let t = k as f64;
                 if fam >= 6 {
                     // mixed scales: a huge, inexactly summed mean next to a tiny spread (fam 6), and a size sweep fill (fam 7)
+                    if fam == 8 {
+                        // strongly but not perfectly correlated rows: row i = ramp + 1e-5 * small wiggle(i, k)
+                        v[i * c.o + k] = t * 0.5 + 1.0 + 1e-5 * (((k * (i + 2) + i) % 3) as f64 - 1.0) * (i as f64);
+                        continue;
+                    }
                     v[i * c.o + k] = if fam == 6 {
                         if i % 2 == 0 { 1e10 + t * 0.1 + (k % 3) as f64 } else { 1.0 + ((k * 7) % 11) as f64 * 1e-6 }
                     } else {
@@ -103,8 +108,15 @@ fn cov_bound<T: Fl>(e: &Exact, i: usize, j: usize, o: usize, dof: f64) -> f64 {
 
 fn run<T: Fl + 'static>(c: &Case, lx: &mut Local) {
     let (r, o) = (c.r, c.o);
-    let off = if T::NAME == "f32" { [0.0, 64.0][c.off as usize] } else { [0.0, 1e6][c.off as usize] };
-    let m: Vec<T> = matrix_of(c).iter().map(|&x| T::of(x + off)).collect();
+    let off = if T::NAME == "f32" { [0.0, 64.0][c.off as usize % 2] } else { [0.0, 1e6][c.off as usize % 2] };
+    // off >= 2: the whole data set at an extreme scale (variances still representable, their products not)
+    let gscale = match c.off {
+        2 => if T::NAME == "f32" { 1e10 } else { 1e80 },
+        3 => if T::NAME == "f32" { 1e-12 } else { 1e-85 },
+        _ => 1.0,
+    };
+    let off = if c.off >= 2 { 0.0 } else { off };
+    let m: Vec<T> = matrix_of(c).iter().map(|&x| T::of((x + off) * gscale)).collect();
     let e = exact_of(&m, r, o);
     let u = T::U;
     let ddofs: Vec<f64> = vec![0.0, 1.0, 0.5, o as f64 - 0.25];
@@ -192,7 +204,10 @@ fn run<T: Fl + 'static>(c: &Case, lx: &mut Local) {
             }
         }
         // metamorphic: affine rescaling of variable 0 (positive scale) leaves the matrix unchanged; negation flips row/column 0
-        for (a, b) in [(2.0, 0.0), (0.5, 1.0), (3.0, -10.0), (-1.0, 0.0), (1e-9, 0.0), (1e-13, 0.0), (1e9, 0.0), (-1e-11, 0.0)] {
+        // (not at the extreme global scales: a further factor of 1e-13 there underflows to subnormals,
+        // where the invariance cannot hold in floating point)
+        let factors: &[(f64, f64)] = if c.off >= 2 { &[(2.0, 0.0), (-1.0, 0.0)] } else { &[(2.0, 0.0), (0.5, 1.0), (3.0, -10.0), (-1.0, 0.0), (1e-9, 0.0), (1e-13, 0.0), (1e9, 0.0), (-1e-11, 0.0)] };
+        for &(a, b) in factors {
             let mut m2 = m.clone();
             for k in 0..o {
                 m2[k] = T::of(a * m[k].to_f64_() + b);
@@ -307,9 +322,23 @@ fn main() {
             }
         }
     }
+    for r in [2usize, 3] {
+        for o in [3usize, 5, 8, 16] {
+            for fam in [0u64, 1, 3, 4, 8] {
+                for off in [0u8, 2, 3] {
+                    if fam != 8 && off == 0 {
+                        continue;
+                    }
+                    for ty in 0..2u8 {
+                        cases.push(Case { r, o, code: fam, structured: true, off, ty, layout: layouts[(o + r + fam as usize + off as usize) % layouts.len()].clone() });
+                    }
+                }
+            }
+        }
+    }
     rep.run_sub(
         "observation-count-sweep",
-        &format!("2 and 3 variables x every observation count 2..=40 and block threshold neighbourhoods up to {} x {{mixed scales: a variable near 1e10 next to one with spread 1e-6; small values with a bump every 16th observation}} x layouts rotating x f64/f32", omax),
+        &format!("2 and 3 variables x every observation count 2..=40 and block threshold neighbourhoods up to {} x {{mixed scales: a variable near 1e10 next to one with spread 1e-6; small values with a bump every 16th observation}} x layouts rotating x f64/f32; plus 2-3 variables x 3..16 observations at global scales 1e80 / 1e-85 (f32: 1e10 / 1e-12) and rows that are correlated to within 1e-11 of 1", omax),
         cases.into_iter(),
         |c, lx| {
             lx.nontrivial(true);
